@@ -54,4 +54,8 @@ var props = map[string]propMeta{
 		Assumptions: commonAssumptions},
 	"C20": {Level: "exploration", Rule: "case k: collection grown one by one (2-17 inserts) so that slice appends both reallocate and not; up to 4 rounds: a search (every operator, single or And) is evaluated and a twin collected at once (M0), 1-6 later writes land before/inside/after the range, then the outstanding search is consumed through Collect / Assign / One / Delete / Reverse.Limit: every object must be in M0, at most once, deleted members must be errors or omitted, without error the result is M0 minus deleted; Len must not change; a late Or/And refinement must leave the index intact (invariant hook + 25 searches). Non-trivial: >= 1 scenario with >= 1 write in between",
 		Assumptions: commonAssumptions},
+	"C11": {Level: "exploration", Rule: "case k: a healthy database of a drawn configuration (checked: no false positive), closed; then an offline fault set: remove 0..all object files, add 0-2 well-formed object files with fresh uuids, remove 0-2 entries consistently from object-ids and every field index of schema.json, remove an entry from one field index only (internal inconsistency), remove schema.json, and combinations; boundary shapes (empty collection, all files gone, only extra files, schema gone, no fault) are forced every 10th case. Oracle: first load and Control report IsIndexCorrupted iff the uuid sets differ (any error for an inconsistent index); Repair succeeds, every object file keeps its hash, nothing is created or deleted, Control then succeeds, and reads + 60 searches equal a model built from the decoded files, also after commit + reopen. Non-trivial: >= 1 fault applied; distinct = fingerprint of configuration + content + fault list",
+		Assumptions: commonAssumptions},
+	"C18": {Level: "exploration", Rule: "cases 0-35: each of the 12 golden directories written by the pinned release e481c06 (6 configurations x 2 contents, three collections each) is copied and opened lazily / through Create / written to first: the independent decoder checks the golden layout, every read path and the FULL search matrix must equal the manifest, AssignIndex, uniqueness and tag constraints must behave, 12 further writes follow and the directory must reload, pass Control and still obey the layout. Remaining cases: directories written by the current code under drawn configurations are walked by the independent decoder: directory name, <uuid><ext>[.gz] names, gzip iff .gz, file bytes == encoding/json of the object, schema.json keys, [value,id] tuples, exact decimal integers, index values/order vs the model. Non-trivial: golden cases, or >= 2 accepted writes",
+		Assumptions: append([]string{"'other versions' is represented by exactly one other build: the pinned release e481c06, whose output is committed under /verif/golden"}, commonAssumptions...)},
 }
